@@ -16,14 +16,18 @@ def c06Row (r : Option (V3 K)) : List String :=
   | some v => rV3 v
   | none => ["nan", "nan", "nan"]
 
-def c06Sliced (r : Res (List (Option (V3 K)) × Bool)) : String :=
+def c06Sliced (r : Res (List (V3 K) × Bool)) : String :=
   match r with
-  | .ok (v, c) => okLine (rBool c :: rList c06Row v)
+  | .ok (v, c) => okLine (rBool c :: rList rV3 v)
   | .error e => errLine e
 
 /-- `<closed> <plane> <vertices>` -/
 def c06Args : Rd (Bool × Plane K × List (V3 K)) := do
   let c ← bool; let pl : Plane K ← c06Plane; let vs ← listOf v3; pure (c, pl, vs)
+
+/-- `<sign> <signed distance> <x y z>` -/
+def c06Given : Rd (GivenVertex K) := do
+  let s ← int; let d ← num; let v ← v3; pure ⟨v, s, d⟩
 
 def c06Ops : List (String × Handler) := [
   -- Polyline(v, is_closed).sliced_by_plane(plane): code-shaped model
@@ -37,15 +41,20 @@ def c06Ops : List (String × Handler) := [
   -- the specification (result is open by definition)
   ("slice.spec", do
     let (c, pl, vs) ← c06Args (K := K)
-    pure (c06Sliced ((sliceSpec pl c vs).map fun v => (v.map some, false)))),
+    pure (c06Sliced ((sliceSpec pl c vs).map fun v => (v, false)))),
+  -- the code-shaped kernel on the signs / signed distances the implementation computed (inputs within rounding
+  -- error of the plane): `<closed> <count> (<sign> <d> <x y z>)*`
+  ("slice.given", do
+    let c ← bool; let gs ← listOf (c06Given (K := K))
+    pure (c06Sliced (slicedByPlaneGiven c gs))),
   -- slice_open_polyline_by_plane(vertices, plane)
   ("slice.open", do
     let pl : Plane K ← c06Plane; let vs ← listOf (v3 (K := K))
-    pure (finish ((sliceOpenRuns pl vs).map (rList c06Row)))),
+    pure (finish ((sliceOpenRuns pl vs).map (rList rV3)))),
   ("slice.openspan", do
     let pl : Plane K ← c06Plane; let vs ← listOf (v3 (K := K))
-    pure (finish ((sliceOpenSpan pl vs).map (rList c06Row)))),
-  -- intersect_segment_with_plane, one segment
+    pure (finish ((sliceOpenSpan pl vs).map (rList rV3)))),
+  -- intersect_segment_with_plane, one segment (no longer used by the slicer; still part of the library)
   ("slice.isect", do
     let s ← v3 (K := K); let d ← v3 (K := K); let r ← v3 (K := K); let n ← v3 (K := K)
     pure (okLine (c06Row (intersectSegmentWithPlane s d r n))))
